@@ -371,6 +371,15 @@ def oracle_mass(models, cop, lo, hi, trunc):
     return z3.simplify(rec(list(range(d)), list(lo), list(hi)))
 
 
+def _earlier_copula_chain(d, grid, method):
+    """history for the replays: a chain of another copula model (other margins, other copula) built on the same grid beforehand"""
+    import rpylib.model.levymodel.mixed.hem as HEM
+    from rpylib.distribution.levycopula import ClaytonCopula
+
+    ms = [HEM.HEMModel(HEM.HEMParameters(sigma=0.2, p=0.7 - 0.1 * i, eta1=9.0 + 2 * i, eta2=12.0 + i, intensity=1.0 + 0.7 * i)) for i in range(d)]
+    MCLC.MarkovChainLevyCopula(LCM.LevyCopulaModel(models=ms, copula=ClaytonCopula(theta=0.7, eta=0.3)), grid, method)
+
+
 def replay_copula(sc):
     """real HEM margins with a Clayton Lévy copula on a non-uniform grid: every state's rate (inversion probability x intensity)
     against the model's own mass of that state's cell, the cell being built here from the raw axes (midpoints, axis ends, central gap)"""
@@ -383,6 +392,7 @@ def replay_copula(sc):
     h = 0.1
     axis = np.array([-h * 1.7**k for k in range(npts)][::-1] + [0.0] + [h * 1.6**k for k in range(npts)])
     grid = GS.CTMCGrid(h=h, origin_coordinate=npts, axes=[axis.copy() for _ in range(d)])
+    _earlier_copula_chain(d, grid, SamplingMethod.INVERSION)
     proc = MCLC.MarkovChainLevyCopula(lcm, grid, SamplingMethod.INVERSION)
     lam = proc.intensity_of_jumps
     model_t = proc.model
@@ -405,9 +415,18 @@ def replay_copula(sc):
     return bool(bad), f"HEM^{d} with Clayton(2, 0.5), axis {axis.round(4).tolist()}: " + "; ".join(bad[:3])
 
 
-def h_copula(ctx, d, npts, method="INVERSION"):
+def h_copula(ctx, d, npts, method="INVERSION", history=False):
     grid, lcm, models, cop = _copula_setup(ctx, d, npts)
     rpc = (replay_copula, lambda m: {"d": d, "npts": max(npts, 2)})
+    if history:
+        # another copula model (other margins, other copula) had its chain built on the same grid earlier in the same interpreter: the
+        # rates of the chain under test are masses of *its* model, whatever was computed before
+        earlier = LCM.LevyCopulaModel(models=[A.abs_levy_model(ctx, f"mu{i}", sigma=0.0, a=0.0, finite_activity=False, finite_variation=True) for i in range(d)],
+                                      copula=A.AbsCopula(ctx, "G", d))
+        try:
+            MCLC.MarkovChainLevyCopula(earlier, grid, SamplingMethod[method])
+        except ZeroDivisionError:
+            raise PathAbort()
     try:
         proc = MCLC.MarkovChainLevyCopula(lcm, grid, SamplingMethod[method])
     except ZeroDivisionError:
@@ -455,6 +474,7 @@ def replay_bsta_nd(sc):
     h = 0.1
     axis = np.array([-h * 1.7**k for k in range(npts)][::-1] + [0.0] + [h * 1.6**k for k in range(npts)])
     grid = GS.CTMCGrid(h=h, origin_coordinate=npts, axes=[axis.copy() for _ in range(d)])
+    _earlier_copula_chain(d, grid, SamplingMethod.BINARYSEARCHTREEADAPTED)
     proc = MCLC.MarkovChainLevyCopula(lcm, grid, SamplingMethod.BINARYSEARCHTREEADAPTED)
     smp = proc.sampling
     lam = proc.intensity_of_jumps
@@ -576,6 +596,7 @@ def harnesses(tier):
                            [(1, 1, "BINARYSEARCHTREE"), (2, 1, "BINARYSEARCHTREE"), (2, 2, "BINARYSEARCHTREE"), (1, 1, "ALIAS"), (1, 2, "ALIAS")]):
         hs.append(Harness(f"factory.{method}.{nl}.{nr}", h_factory_vector, {"nl": nl, "nr": nr, "method": method}, max_paths=6000))
     hs.append(Harness("copula.2d.1", h_copula, {"d": 2, "npts": 1}, max_paths=4000))
+    hs.append(Harness("copula.2d.1.after_another_model", h_copula, {"d": 2, "npts": 1, "history": True}, max_paths=4000))
     hs.append(Harness("bsta.2d.1", h_bsta_nd, {"d": 2, "npts": 1}, max_paths=4000, batch=1))
     hs.append(Harness("bsta.2d.2", h_bsta_nd, {"d": 2, "npts": 2}, max_paths=4000, batch=1))
     if not q:
@@ -592,13 +613,21 @@ EXPECT = ["C01.poisson_clock_rate_is_sum_of_rates.1d", "C01.rate_is_cell_mass.1d
           "C01.rate_is_cell_mass.2d", "C01.sum_of_rates_is_intensity.2d", "C01.adapted_tree_nd.measure_times_intensity_is_cell_mass", "C01.factory_vector.measure_times_intensity_is_cell_mass"]
 
 
+# reference replays run when the symbolic run of a harness ends in an exception of the code under analysis (see runner.run_check)
+ERROR_REPLAYS = {"1d.": (replay_1d, {"nl": 2, "nr": 3, "refine": 1}), "bsta1d": (replay_bsta1d, {"nl": 2, "nr": 3}),
+                 "factory.ALIAS": (replay_factory_vector, {"nl": 2, "nr": 2, "method": "ALIAS"}),
+                 "factory.BINARYSEARCHTREE": (replay_factory_vector, {"nl": 2, "nr": 2, "method": "BINARYSEARCHTREE"}),
+                 "copula.2d": (replay_copula, {"d": 2, "npts": 2}), "copula.3d": (replay_copula, {"d": 3, "npts": 1}),
+                 "bsta.2d": (replay_bsta_nd, {"d": 2, "npts": 2}), "bsta.3d": (replay_bsta_nd, {"d": 3, "npts": 1})}
+
+
 def main(tier):
     bounds = {"quick": "1-d grids up to 2+2 points and 1 refinement; 2-d copula chain 3x3; finite/infinite activity and variation flavours",
               "thorough": "1-d grids up to 3+3 points, up to 2 refinements; 2-d 5x5, 3-d 3x3x3",
               "grids": "any strictly increasing axis with 0 at the pivot and -h/+h as its neighbours (what every constructor returns, C13); "
                        "cell boundaries by CTMCGrid.middle (probability-step grids, whose middle() is a root search, are outside)",
               "outside": "float rounding; that each concrete model is an additive measure with these integrals (C09)"}
-    return run_check(PID, tier, harnesses(tier), expect=EXPECT, bounds=bounds,
+    return run_check(PID, tier, harnesses(tier), expect=EXPECT, bounds=bounds, error_replays=ERROR_REPLAYS,
                      assumptions=COMMON_ASSUMPTIONS + [
                          "abstract Lévy measure: additive cumulative functions L_k/T_k (UF), positivity/monotonicity on occurring points",
                          "abstract Lévy copula: UF per infinite-argument pattern, grounded; one-dimensional margins are the identity",
